@@ -219,3 +219,92 @@ func deadTail(p *core.Prog, r *core.Report, files []string) {
 		r.Floor("branches_examined", 500)
 	}
 }
+
+// ELEMENTS-ALL — the validator of a plain (non-schema) array judges every element: the loop that runs the items
+// validator per element is left before exhaustion only where that element's result has errors.
+func ElementsAll(p *core.Prog, r *core.Report) {
+	const rule = "ELEMENTS-ALL"
+	n := 0
+	for _, f := range p.Funcs {
+		if f.Parent() != nil || !p.InSubject(f) {
+			continue
+		}
+		// loops whose body runs an items validator on an element
+		for _, loop := range allLoopsOf(f) {
+			var run *ssa.Call
+			for b := range loop {
+				for _, ins := range b.Instrs {
+					if c, ok := ins.(*ssa.Call); ok {
+						if g := core.StaticCallee(c); g != nil && core.FuncName(g) == "(*itemsValidator).Validate" {
+							run = c
+						}
+					}
+				}
+			}
+			if run == nil {
+				continue
+			}
+			n++
+			var header *ssa.BasicBlock
+			for b := range loop {
+				dom := true
+				for o := range loop {
+					if !b.Dominates(o) {
+						dom = false
+					}
+				}
+				if dom {
+					header = b
+				}
+			}
+			bad := ""
+			for b := range loop {
+				if b == header {
+					continue
+				}
+				if _, isPanic := b.Instrs[len(b.Instrs)-1].(*ssa.Panic); isPanic {
+					continue
+				}
+				var conds []core.Cond
+				leaves := len(b.Succs) == 0
+				if leaves {
+					conds = core.CondsAt(b)
+				}
+				for _, sc := range b.Succs {
+					if !loop[sc] {
+						leaves = true
+						conds = append(append([]core.Cond{}, core.CondsAt(b)...), condsOnEdge(b, sc)...)
+					}
+				}
+				if !leaves {
+					continue
+				}
+				onError := false
+				for _, cd := range conds {
+					c, ok := cd.Value.(*ssa.Call)
+					if !ok {
+						continue
+					}
+					h := core.StaticCallee(c)
+					if h == nil || len(c.Call.Args) == 0 || c.Call.Args[0] != ssa.Value(run) {
+						continue
+					}
+					if (h.Name() == "HasErrors" && cd.Sense) || (h.Name() == "IsValid" && !cd.Sense) {
+						onError = true
+					}
+				}
+				if !onError {
+					bad = p.Pos(posOf(b.Instrs[len(b.Instrs)-1], f))
+				}
+			}
+			key := core.FuncName(f) + ":every-element"
+			if bad != "" {
+				r.Bad(rule, key, bad, "the loop over the elements is left although the element just validated has no error: the remaining elements are never validated")
+			} else {
+				r.OK(rule, key, p.Pos(run.Pos()), "the loop over the elements is left early only on an element with errors")
+			}
+		}
+	}
+	r.Count("element_loops", n)
+	r.Floor("element_loops", 1)
+}
